@@ -389,10 +389,10 @@ if a.tier == "exhaustive":
                     if n == 3 and rng.random() > 0.04:      # all 1- and 2-atom streams, a sample of the 3-atom ones
                         continue
                     exhaustive_stream(b, 1, kmous, allow_unknown=must is not None)
-    bound = "every 2- and 3-fragmentation of every stream of 1 or 2 atoms (and a 4% sample of 3 atoms) over %d atoms, <= 24 bytes, kmous in {0,1}" % (len(SMALL_ALPHABET) + len(TRIGGER_ATOMS))
+    bound = "every 2- and 3-fragmentation of every stream of 1 or 2 atoms (and a 4%% sample of 3 atoms) over %d atoms, <= 24 bytes, kmous in {0,1}" % (len(SMALL_ALPHABET) + len(TRIGGER_ATOMS))
 else:
-    nrand = 700 if a.tier == "quick" else 7000
-    nshort = 12 if a.tier == "quick" else 80
+    nrand = 2000 if a.tier == "quick" else 8000
+    nshort = 30 if a.tier == "quick" else 100
     for _ in range(nrand):
         random_history(False)
     for _ in range(nshort):
